@@ -72,7 +72,7 @@ def cases(tier, seed):
             else:
                 for rb in REPS:
                     out.append({'part': 'pairs', 'n': n, 'ra': ra, 'rbs': [rb]})
-    for mode in ('dense', 'sparse', 'mixed'):
+    for mode in ('dense', 'sparse', 'mixed', 'mixed-sparse-first'):
         for a0 in range(16):
             out.append({'part': 'stacks', 'mode': mode, 'a0': a0})
     for N in b['overlap_N']:
@@ -149,7 +149,7 @@ def eval_stacks(case):
     nbad = 0
     for a0 in (case['a0'],):
         for a1 in range(16):
-            SA = mk([a0, a1], mode == 'sparse')
+            SA = mk([a0, a1], mode in ('sparse', 'mixed-sparse-first'))
             for b0 in range(16):
                 for b1 in range(16):
                     SB = mk([b0, b1], mode in ('sparse', 'mixed'))
